@@ -383,7 +383,7 @@ func (c Collection) Equals(with Item) bool {
 		return false
 	}
 	result := true
-	_ = OnCollection(with, func(w *Collection) error {
+	err := OnCollection(with, func(w *Collection) error {
 		_ = OnObject(w, func(wo *Object) error {
 			if !wo.Equals(c) {
 				result = false
@@ -423,6 +423,10 @@ func (c Collection) Equals(with Item) bool {
 		}
 		return nil
 	})
+	if err != nil {
+		// an item that can not be seen as a collection (a plain list of items) is not equal to one
+		return false
+	}
 	return result
 }
 
